@@ -599,8 +599,8 @@ theorem fmtPath_head (strict : Bool) (p : Bytes) : (fmtPath strict p).head? = so
 
 theorem nine_no_slash : ∀ m ∈ anyMethodsB, (0x2F : Nat) ∉ m := by decide
 
-theorem prepare_ok_facts {strict : Bool} {id : Nat} {name : Bytes} {ms : List Bytes} {p : Bytes} {nh : Bool}
-    {route : RouteM} (h : prepare strict id name ms p nh = .ok route) :
+theorem prepare_ok_facts {gv : GVars} {strict : Bool} {id : Nat} {name : Bytes} {ms : List Bytes} {p : Bytes} {nh : Bool}
+    {route : RouteM} (h : prepare gv strict id name ms p nh = .ok route) :
     (route.static = false → routeOK route.info = true) ∧
     (∀ m' ∈ route.methods, (0x2F : Nat) ∉ m') ∧
     (route.path.head? = some 0x2F) ∧ route.path = fmtPath strict (simpleFmt p) := by
